@@ -137,6 +137,18 @@ type shRender struct {
 	tid   int
 	depth int
 	nvar  int
+	// style, when set, varies the spelling of conditions, case lists and loop bodies without changing what
+	// the shape does: compound conditions whose other operand is a constant-valued comparison over locals
+	// (fused by the optimizer), case lists mixing literals and expressions, a loop variable redeclared in the body
+	style *core.Rng
+}
+
+// cond spells a condition with the truth value of one nx() call.
+func (r *shRender) cond() string {
+	if r.style == nil {
+		return "nx()"
+	}
+	return core.Pick(r.style, []string{"nx()", "nx()", "one > 0 && nx()", "nx() && n+1 > one", "zero > 0 || nx()", "nx() || n-1 > n", "nx() && xs[0] > one", "!(!nx() || n*2 < one)", "n+1 > one && nx() && one-1 < n"})
 }
 
 func (r *shRender) line(ind int, f string, a ...any) {
@@ -159,19 +171,19 @@ func (r *shRender) stmt(s *shNode, ind int) {
 	case "break", "continue", "return":
 		r.line(ind, s.kind)
 	case "if":
-		r.line(ind, "if nx() {")
+		r.line(ind, "if %s {", r.cond())
 		r.block(s.blocks[0], ind+1)
 		r.line(ind, "}")
 	case "ifelse":
-		r.line(ind, "if nx() {")
+		r.line(ind, "if %s {", r.cond())
 		r.block(s.blocks[0], ind+1)
 		r.line(ind, "} else {")
 		r.block(s.blocks[1], ind+1)
 		r.line(ind, "}")
 	case "ifelif":
-		r.line(ind, "if nx() {")
+		r.line(ind, "if %s {", r.cond())
 		r.block(s.blocks[0], ind+1)
-		r.line(ind, "} else if nx() {")
+		r.line(ind, "} else if %s {", r.cond())
 		r.block(s.blocks[1], ind+1)
 		r.line(ind, "} else {")
 		r.block(s.blocks[2], ind+1)
@@ -180,10 +192,15 @@ func (r *shRender) stmt(s *shNode, ind int) {
 		r.nvar++
 		v := fmt.Sprintf("i%d", r.nvar)
 		r.line(ind, "for %s := 0; %s < 2; %s++ {", v, v, v)
+		if r.style != nil && r.style.Chance(1, 3) {
+			// the body's own variable of the same name; the post statement still advances the loop's
+			r.line(ind+1, "%s := %s * 10", v, v)
+			r.line(ind+1, "_ = %s", v)
+		}
 		r.block(s.blocks[0], ind+1)
 		r.line(ind, "}")
 	case "forcond":
-		r.line(ind, "for nx() {")
+		r.line(ind, "for %s {", r.cond())
 		r.block(s.blocks[0], ind+1)
 		r.line(ind, "}")
 	case "forever":
@@ -216,14 +233,20 @@ func (r *shRender) stmt(s *shNode, ind int) {
 				r.line(ind, "default:")
 			} else {
 				switch {
+				case s.tagged && s.multi && r.style != nil:
+					r.line(ind, "case %s:", [][]string{{"1, 2", "1, one+1", "one, 2", "zero+1, 2, n", "7, one, n-3"}, {"0", "zero", "one-1, n"}, {"3", "one+2", "n, 3"}}[caseNo%3][r.style.Intn(3)])
 				case s.tagged && s.multi:
 					r.line(ind, "case %s:", []string{"1, 2", "0", "3"}[caseNo%3])
+				case s.tagged && r.style != nil && r.style.Chance(1, 3):
+					r.line(ind, "case %s:", []string{"zero", "one", "one+1", "n-2"}[caseNo%4])
 				case s.tagged:
 					r.line(ind, "case %d:", caseNo)
+				case s.multi && r.style != nil:
+					r.line(ind, "case %s:", core.Pick(r.style, []string{"nx(), nx()", "n+1 < one, nx(), nx()", "nx(), zero > one, nx()", "nx(), nx(), n*2 < n", "false, nx(), nx() && one > zero"}))
 				case s.multi:
 					r.line(ind, "case nx(), nx():")
 				default:
-					r.line(ind, "case nx():")
+					r.line(ind, "case %s:", r.cond())
 				}
 				caseNo++
 			}
@@ -276,8 +299,13 @@ func run(id string, t int, tab []bool, f func()) {
 
 `
 
-func c06Case(idx int, body []*shNode, rng *core.Rng) packedCase {
+func c06Case(idx int, body []*shNode, rng *core.Rng, styled bool) packedCase {
 	var r shRender
+	if styled {
+		r.style = rng
+		r.line(1, "one, zero, n := 1, 0, 5")
+		r.line(1, "_, _, _ = one, zero, n")
+	}
 	r.block(body, 1)
 	id := fmt.Sprintf("s%d", idx)
 	decl := fmt.Sprintf("func %s() {\n%s}\n", id, r.sb.String())
@@ -369,7 +397,7 @@ func c06Random(rng *core.Rng, size int, ctx shCtx, depth int) []*shNode {
 
 func runC06(r *core.Run) {
 	maxSize := r.N(3, 4)
-	r.SetRule(fmt.Sprintf("shape functions built from T (trace point), break, continue, return, if / if-else / if-else-if-else, the three for forms, range (with and without variables), tagged and tagless switch with 1-2 cases, multi-value cases and default first/middle/last/absent; every shape of size <= %d is enumerated, larger ones (size <= 25, depth <= 6) sampled; each runs under 4 condition tables. non-trivial = accepted by Go and printed at least one trace line under some table; distinct by shape text", maxSize))
+	r.SetRule(fmt.Sprintf("shape functions built from T (trace point), break, continue, return, if / if-else / if-else-if-else, the three for forms, range (with and without variables), tagged and tagless switch with 1-2 cases, multi-value cases and default first/middle/last/absent; each shape also in a varied spelling (compound && / || conditions whose other operand is a comparison over locals, case lists mixing literals and expressions of different length, a loop variable redeclared in the body); every shape of size <= %d is enumerated, larger ones (size <= 25, depth <= 6) sampled; each runs under 4 condition tables. non-trivial = accepted by Go and printed at least one trace line under some table; distinct by shape text", maxSize))
 	r.Assume("Go toolchain (GOARCH=386) as the reference; conditions come from a bool table through a function with a fuel counter, so every loop terminates on both sides")
 	var cases []packedCase
 	var shapes [][]*shNode
@@ -391,8 +419,17 @@ func runC06(r *core.Run) {
 		rng := core.Derive(r.Seed, "c06-rand", i)
 		shapes = append(shapes, c06Random(rng, rng.Range(6, 25), shCtx{}, 0))
 	}
+	// every enumerated shape in the plain spelling and once more in a varied spelling; sampled shapes alternate
+	plainN := len(shapes)
+	for i := 0; i < exhaustiveN; i++ {
+		shapes = append(shapes, shapes[i])
+	}
 	for i, b := range shapes {
-		cases = append(cases, c06Case(i, b, core.Derive(r.Seed, "c06-tab", i)))
+		styled := i >= plainN || (i >= exhaustiveN && i%2 == 1)
+		cases = append(cases, c06Case(i, b, core.Derive(r.Seed, "c06-tab", i), styled))
+		if styled {
+			r.Count("shapes_in_varied_spelling", 1)
+		}
 	}
 	r.Count("shapes_enumerated_exhaustively", exhaustiveN)
 	r.Count("shapes_sampled", nRand)
